@@ -105,7 +105,7 @@ def mkSearch (evs : Array Ev) : Search × Array (Option Nat) := Id.run do
 def spcKey : SPc → Nat
   | .init => 0 | .spawn => 1 | .store => 2 | .sel => 3 | .parked => 4 | .cool => 5 | .respawn => 6 | .clear => 7 | .done => 8
 def cpcKey : CPc → Nat
-  | .idle => 0 | .load => 1 | .svcClose => 2 | .waitDone => 3 | .signal => 4 | .ret => 5
+  | .idle => 0 | .load => 1 | .svcClose => 2 | .waitDone => 3 | .signal => 4 | .ret => 5 | .drain => 6
 def svcKey : Svc → Nat
   | .unstarted => 0 | .starting => 1 | .started => 2 | .stopping => 3 | .stopped => 4
 def msgKey : Option Msg → Nat
@@ -122,9 +122,9 @@ def tkey (t : TState) : Array Nat :=
 def hiddenLabels : List CLabel := [.sSel, .gCall, .gStarted, .gStopSeen, .cSvcClose, .cWaitDone, .gPanic]
 
 /-- the v3 recoverer -/
-def sysV3 : Sys TState CLabel where
+def sysV3 (old : Bool) : Sys TState CLabel where
   key := tkey
-  evStep := tstep
+  evStep := tstep old
   hidden t := hiddenLabels.filterMap fun l =>
     if hiddenOk t l then (stepCore t.c l).map fun c' => (l, { t with c := c' }) else none
 
@@ -199,8 +199,15 @@ def searchTrace {σ ι : Type} (sys : Sys σ ι) (t0 : σ) (evs : Array Ev) (acc
       msg := s!"{if out then "search budget exhausted; " else ""}no admissible reordering of the log (hidden steps filled in) is a path of the model: stuck after {st.deepest} of {evs.size} events; first event that cannot be placed: #{st.stuckAt} {showEv e}; log: {evs.toList.map showEv}" }
 
 def checkTrace (latched : Bool) (evs : Array Ev) : TraceVerdict :=
-  searchTrace sysV3 { c := initOf latched } evs fun items =>
+  let v := searchTrace (sysV3 false) { c := initOf latched } evs fun items =>
     traceOk latched evs (items.map fun | .inl i => Item.ev i | .inr l => Item.hid l)
+  if v.ok || v.inconclusive then v
+  else
+    -- not a run of the model of the current code: is it a run of the pre-fix Close (one non-blocking send)?
+    let vo := searchTrace (sysV3 true) { c := initOf latched } evs fun items =>
+      traceOkOld latched evs (items.map fun | .inl i => Item.ev i | .inr l => Item.hid l)
+    if vo.ok then { v with msg := "the log IS a path of the PRE-FIX model (Close makes one non-blocking send and drops its stop signal when the channel is full: schedule (c), `close_signal_dropped_old`); " ++ v.msg }
+    else v
 
 def checkTraceV2 (evs : Array Ev) : TraceVerdict :=
   searchTrace sysV2 { c := V2.vinit } evs fun items =>
